@@ -100,6 +100,8 @@ package scanner
 //@   ensures [at-most-one-batch] chan_len[e.stream] == old(chan_len)[e.stream] || chan_len[e.stream] == old(chan_len)[e.stream]+1
 //@   ensures [batches-name-the-read-revision] forall(i, old(chan_len)[e.stream] <= i && i < chan_len[e.stream], data_batch(asref(chan_log[e.stream][i], "*proto.StreamRangeResponse"), e.readRev))
 //@   ensures [receiver-kept] e.stream == old(e.stream) && e.readRev == old(e.readRev)
+// a batch that has been put on the stream is the consumer's: the receiver goes on with a new one
+//@   ensures [a-sent-batch-is-never-written-again] chan_len[e.stream] != old(chan_len)[e.stream] ==> len(e.batch) == 0 && fresh(e.batch) && asref(chan_log[e.stream][old(chan_len)[e.stream]], "*proto.StreamRangeResponse").RangeResponse.Kvs.obj != e.batch.obj
 
 //@ func (*streamResultReceiver).flush()
 //@   props C13
@@ -108,6 +110,9 @@ package scanner
 //@   ensures [at-most-one-batch] chan_len[e.stream] == old(chan_len)[e.stream] || chan_len[e.stream] == old(chan_len)[e.stream]+1
 //@   ensures [batches-name-the-read-revision] forall(i, old(chan_len)[e.stream] <= i && i < chan_len[e.stream], data_batch(asref(chan_log[e.stream][i], "*proto.StreamRangeResponse"), e.readRev))
 //@   ensures [receiver-kept] e.stream == old(e.stream) && e.readRev == old(e.readRev)
+//@   ensures [the-pending-items-are-sent] chan_len[e.stream] != old(chan_len)[e.stream] ==> asref(chan_log[e.stream][old(chan_len)[e.stream]], "*proto.StreamRangeResponse").RangeResponse.Kvs == old(e.batch)
+//@   ensures [a-sent-batch-is-never-written-again] chan_len[e.stream] != old(chan_len)[e.stream] ==> len(e.batch) == 0 && fresh(e.batch)
+//@   ensures [nothing-pending-nothing-sent] old(len(e.batch)) == 0 ==> chan_len[e.stream] == old(chan_len)[e.stream]
 
 //@ func (*streamResultReceiver).close()
 //@   props C13
@@ -119,6 +124,7 @@ package scanner
 //@   props C13
 //@   modifies inferred:(*streamResultReceiver).reset
 //@   ensures [receiver-kept] e.stream == old(e.stream) && e.readRev == old(e.readRev) && len(e.batch) == 0
+//@   ensures [a-fresh-working-batch] fresh(e.batch)
 
 // the goroutine started by RangeStream: whatever the scan did, exactly one more message is
 // sent afterwards, it is the terminator for this revision, and then the stream is closed
